@@ -947,7 +947,7 @@ enum SimEv {
     /// the software returned with these submissions in flight (InSim::leave_early)
     LeftEarly,
     /// prologue of InSim::rejected_while_parked: was the parked readable() woken, and what did it reap
-    RejectedWhileParked { woke: bool, reaped: Vec<(u64, i32)> },
+    RejectedWhileParked { woke: bool, reaped: Vec<(u64, i32)>, valid: bool },
     Error(String),
 }
 
@@ -1000,6 +1000,10 @@ fn run_in_sim(sc: &Scenario, log: &mut Log, rep: &mut Report) -> Option<Violatio
         let stash = stash.clone();
         let leave_early = ins.leave_early;
         let rejected_while_parked = ins.rejected_while_parked && !ins.leave_early;
+        // every other time the sibling's entry is a valid fsync: it completes after the configured latency, and the
+        // task parked on the (then idle) ring must be woken for it all the same
+        let parked_valid = sc.fs_seed % 2 == 1;
+        let lat_max_ns = sc.lat_max_ns.max(sc.lat_min_ns);
         let tick_ms = ins.tick_ms;
         let pushes = pushes.clone();
         let init = init.clone();
@@ -1078,7 +1082,7 @@ fn run_in_sim(sc: &Scenario, log: &mut Log, rep: &mut Report) -> Option<Violatio
                         let tick = Duration::from_millis(tick_ms);
                         tokio::task::spawn_local(async move {
                             tokio::time::sleep(tick).await;
-                            let e = opcode::Fsync::new(fd).build().flags(squeue::Flags::IO_LINK).user_data(999_999);
+                            let e = if parked_valid { opcode::Fsync::new(fd).build().user_data(999_999) } else { opcode::Fsync::new(fd).build().flags(squeue::Flags::IO_LINK).user_data(999_999) };
                             let mut r = r2.borrow_mut();
                             unsafe {
                                 let _ = r.submission().push(&e);
@@ -1086,7 +1090,8 @@ fn run_in_sim(sc: &Scenario, log: &mut Log, rep: &mut Report) -> Option<Violatio
                             let _ = r.submit();
                         });
                         // nothing is in flight: this parks until the other task's submission completes
-                        let woke = tokio::time::timeout(tick * 6, afd.readable()).await.map(|g| g.is_ok()).unwrap_or(false);
+                        let wait = if parked_valid { tick * 9 + Duration::from_nanos(lat_max_ns) } else { tick * 6 };
+                        let woke = tokio::time::timeout(wait, afd.readable()).await.map(|g| g.is_ok()).unwrap_or(false);
                         let mut reaped = Vec::new();
                         {
                             let mut r = ring.borrow_mut();
@@ -1096,7 +1101,7 @@ fn run_in_sim(sc: &Scenario, log: &mut Log, rep: &mut Report) -> Option<Violatio
                                 reaped.push((c.user_data(), c.result()));
                             }
                         }
-                        events.borrow_mut().push(SimEv::RejectedWhileParked { woke, reaped });
+                        events.borrow_mut().push(SimEv::RejectedWhileParked { woke, reaped, valid: parked_valid });
                     }
                     for chunk in pushes.chunks(batch) {
                         let mut bufs: Vec<Vec<u8>> = Vec::new();
@@ -1248,7 +1253,15 @@ fn run_in_sim(sc: &Scenario, log: &mut Log, rep: &mut Report) -> Option<Violatio
                 log.tag("crash");
             }
             SimEv::Error(e) => return Some(Violation::new("SimError", format!("in-Sim host program failed: {e}"))),
-            SimEv::RejectedWhileParked { woke, reaped } => {
+            SimEv::RejectedWhileParked { woke, reaped, valid: true } => {
+                log.ev(format!("sim parked in readable(), another task submitted a valid fsync: woke={woke} reaped={reaped:?}"));
+                log.tag("parked-valid");
+                rep.probes.inc("in_sim_parked_reader_woken_by_a_sibling_tasks_submission");
+                if !*woke || !reaped.iter().any(|(ud, _)| *ud == 999_999) {
+                    return Some(Violation::new("LostCompletion", format!("in-Sim: a task parked in AsyncFd::readable() on an idle ring was not woken by the completion of an fsync that another task submitted, within its max latency + 9 ticks (woke={woke}, reaped={reaped:?})")));
+                }
+            }
+            SimEv::RejectedWhileParked { woke, reaped, .. } => {
                 log.ev(format!("sim parked in readable(), another task submitted an entry with an unsupported flag: woke={woke} reaped={reaped:?}"));
                 log.tag("parked");
                 rep.probes.inc("in_sim_parked_reader_woken_by_rejected_submission");
